@@ -48,12 +48,15 @@ impl<'a> ParserBuilder<'a> {
         let psess = self.psess.ok_or(ParserError::NoParseSess)?;
         let input = self.input.ok_or(ParserError::NoInput)?;
 
-        let parser = match Self::parser(psess.inner(), input) {
-            Ok(p) => p,
-            Err(diagnostics) => {
+        // Creating the parser lexes the whole input, and the lexer reports fatal errors (e.g. an
+        // unterminated string literal) by unwinding.
+        let parser = match catch_unwind(AssertUnwindSafe(|| Self::parser(psess.inner(), input))) {
+            Ok(Ok(p)) => p,
+            Ok(Err(diagnostics)) => {
                 psess.emit_diagnostics(diagnostics);
                 return Err(ParserError::ParserCreationError);
             }
+            Err(_) => return Err(ParserError::ParsePanicError),
         };
 
         Ok(Parser { parser })
